@@ -270,8 +270,8 @@ def configs_b(tier):
         for g in (0, 1, 2):
             cfg.append([1, ax, g, 600, 8])
             cfg.append([2, ax, g, 2000 if tier == "thorough" else 900, 4 if tier == "quick" else 6])
-    if tier == "thorough":
-        cfg += [[3, ax, 0, 3000, 3] for ax in (0, 1, 2)]
+    # three points: 10 412 paths per axis, but one branch condition ((q-p2)^2 <= cut^2 - 53/8 under a long path condition) is
+    # answered `unknown` by both the default solver and nlsat - outside the claim rather than inconclusive forever
     return cfg
 
 
@@ -330,12 +330,12 @@ def main(tier, seed, only=None):
         rep.require_reached("H16a:copies", "H16b:neighbours", "H16c:match", "H16c:substitution", "H16c:vacancy", "H16d")
     rep.bounds = {"H16a": "extend_system: 1 atom (2 for two cells), all three fractional coordinates symbolic in [0,1), symbolic cutoff in (0, cutmax]; cells ortho, tricl, plate, pyth"
                           + ("" if tier == "quick" else ", rot, shear, needle") + " and degenerate cells with 1-3 zero vectors; completeness over omitted offsets within copies+2 (relaxed 3-variable form, strict inequality)",
-                  "H16b": "CellList on 1-2 (3 thorough) points, one symbolic coordinate per point and query (each axis in turn, others from three fixed grids), cutoff in [1/2,3], query within the points' span widened by one cutoff",
+                  "H16b": "CellList on 1-2 points, one symbolic coordinate per point and query (each axis in turn, others from three fixed grids), cutoff in [1/2,3], query within the points' span widened by one cutoff",
                   "H16c": "get_matches / get_matches_simple with a stub cell list returning <= 2 (3 thorough) neighbours with symbolic distances, symbolic query position and tolerance",
                   "H16d": "get_cell_list / get_extended_system argument forwarding with symbolic extension and cutoff"}
     rep.stubs = ["pybind11 stand-in header", "SymD symbolic scalar", "stub cell list / Atom / ase.geometry.wrap_positions in H16c", "matid.ext recorder in H16d"]
     rep.assumptions = ["exact real arithmetic", "strict form of completeness (an image cell exactly at the cutoff distance is not required)"]
-    rep.outside = ["two symbolic axes with two or more points (disc constraints: z3 unknown)", "more than 3 points / 2 atoms", "floating-point bin-edge effects"]
+    rep.outside = ["two symbolic axes with two or more points (disc constraints: z3 unknown)", "3 or more points in the CellList harness (one unknown branch condition with 3), more than 2 atoms in extend_system", "floating-point bin-edge effects"]
     return rep.finish()
 
 
